@@ -89,7 +89,7 @@ def run_property(prop, tier, seed, jobs=None, only=None):
                 valid_bad.append((r['case'], why))
         for i, c in enumerate(r.get('candidates', [])[:MAX_REPLAYS_PER_CASE]):
             a = ans.get(('replay', r['case'], i))
-            confirmed, text = mod.judge(r['case'], r['kwargs'], c, a) if a and 'error' not in a else (None, (a or {}).get('error', 'no answer'))
+            confirmed, text = mod.judge(r['case'], r['kwargs'], c, a) if a else (None, 'no answer from the pristine interpreter')
             kf = known.by_id(findings, c['known']) if c.get('known') else None
             if confirmed is True:
                 if kf is not None and kf.get('status') == 'open':
